@@ -20,14 +20,26 @@ move 1 1
 @top-early@
 func f:num n:num
 @func@
+    if n > 100
+@funcif@
+        print "big"
+    end
     return n
 end
 func p
 @proc@
+    while false
+@procwhile@
+        print "never"
+    end
     print "p"
 end
 on key k:string
 @handler@
+    for j := range 2
+@handlerloop@
+        print j
+    end
     print k
 end
 if true
@@ -52,34 +64,36 @@ type zzBreakage struct {
 }
 
 var zzBreakages = []zzBreakage{
-	{"undeclared variable", []string{"print nosuchvar"}, "top-early func proc handler if loop top-late"},
-	{"unused variable", []string{"unusedv := 1"}, "top-early func proc handler if loop top-late"},
-	{"redeclaration", []string{"dup := 1", "dup := 2", "print dup"}, "top-early func proc handler if loop top-late"},
-	{"type mismatch", []string{"tm := 1", "tm = \"s\"", "print tm"}, "top-early func proc handler if loop top-late"},
-	{"type mismatch in call", []string{"move \"a\" 1"}, "top-early func proc handler if loop top-late"},
-	{"wrong number of arguments", []string{"move 1"}, "top-early func proc handler if loop top-late"},
-	{"too many arguments", []string{"cls 1"}, "top-early func proc handler if loop top-late"},
+	{"undeclared variable", []string{"print nosuchvar"}, "top-early func proc handler if loop top-late funcif handlerloop procwhile"},
+	{"unused variable", []string{"unusedv := 1"}, "top-early func proc handler if loop top-late funcif handlerloop procwhile"},
+	{"redeclaration", []string{"dup := 1", "dup := 2", "print dup"}, "top-early func proc handler if loop top-late funcif handlerloop procwhile"},
+	{"type mismatch", []string{"tm := 1", "tm = \"s\"", "print tm"}, "top-early func proc handler if loop top-late funcif handlerloop procwhile"},
+	{"type mismatch in call", []string{"move \"a\" 1"}, "top-early func proc handler if loop top-late funcif handlerloop procwhile"},
+	{"wrong number of arguments", []string{"move 1"}, "top-early func proc handler if loop top-late funcif handlerloop procwhile"},
+	{"too many arguments", []string{"cls 1"}, "top-early func proc handler if loop top-late funcif handlerloop procwhile"},
 	{"missing return", []string{"func g:num", "    print 1", "end"}, "top-early top-late"},
-	{"unreachable code", []string{"return 1", "print 2"}, "func"},
-	{"unreachable code after break", []string{"break", "print 2"}, "loop"},
-	{"break outside loop", []string{"break"}, "top-early func proc handler if top-late"},
-	{"value returned from handler", []string{"return 1"}, "handler"},
-	{"value returned from procedure", []string{"return 1"}, "proc"},
+	{"unreachable code", []string{"return 1", "print 2"}, "func funcif"},
+	{"unreachable code after break", []string{"break", "print 2"}, "loop handlerloop procwhile"},
+	{"break outside loop", []string{"break"}, "top-early func proc handler if top-late funcif"},
+	{"value returned from handler", []string{"return 1"}, "handler handlerloop"},
+	{"value returned from procedure", []string{"return 1"}, "proc procwhile"},
+	{"wrong return type", []string{"return \"s\""}, "func funcif"},
+	{"missing return value", []string{"return"}, "func funcif"},
 	{"return at top level", []string{"return"}, "top-early"},
-	{"unknown function", []string{"nosuchfunc 1"}, "top-early func proc handler if loop top-late"},
-	{"stray text after statement", []string{"y9 := 1 2", "print y9"}, "top-early func proc handler if loop top-late"},
-	{"stray text after call", []string{"cls )"}, "top-early func proc handler if loop top-late"},
-	{"stray text after end", []string{"if true", "    cls", "end garbage"}, "top-early func proc handler if loop top-late"},
-	{"assignment to undeclared", []string{"nosuch = 1"}, "top-early func proc handler if loop top-late"},
-	{"string index assignment", []string{"si := \"abc\"", "si[0] = \"x\"", "print si"}, "top-early func proc handler if loop top-late"},
+	{"unknown function", []string{"nosuchfunc 1"}, "top-early func proc handler if loop top-late funcif handlerloop procwhile"},
+	{"stray text after statement", []string{"y9 := 1 2", "print y9"}, "top-early func proc handler if loop top-late funcif handlerloop procwhile"},
+	{"stray text after call", []string{"cls )"}, "top-early func proc handler if loop top-late funcif handlerloop procwhile"},
+	{"stray text after end", []string{"if true", "    cls", "end garbage"}, "top-early func proc handler if loop top-late funcif handlerloop procwhile"},
+	{"assignment to undeclared", []string{"nosuch = 1"}, "top-early func proc handler if loop top-late funcif handlerloop procwhile"},
+	{"string index assignment", []string{"si := \"abc\"", "si[0] = \"x\"", "print si"}, "top-early func proc handler if loop top-late funcif handlerloop procwhile"},
 	{"unknown event", []string{"on nosuchevent", "    cls", "end"}, "top-early top-late"},
 	{"redeclared function", []string{"func p", "    cls", "end"}, "top-early top-late"},
-	{"condition not bool", []string{"if 1", "    cls", "end"}, "top-early func proc handler if loop top-late"},
-	{"illegal character", []string{"print #"}, "top-early func proc handler if loop top-late"},
-	{"unterminated string", []string{"print \"abc"}, "top-early func proc handler if loop top-late"},
+	{"condition not bool", []string{"if 1", "    cls", "end"}, "top-early func proc handler if loop top-late funcif handlerloop procwhile"},
+	{"illegal character", []string{"print #"}, "top-early func proc handler if loop top-late funcif handlerloop procwhile"},
+	{"unterminated string", []string{"print \"abc"}, "top-early func proc handler if loop top-late funcif handlerloop procwhile"},
 }
 
-var zzSlots = []string{"top-early", "func", "proc", "handler", "if", "loop", "top-late"}
+var zzSlots = []string{"top-early", "func", "proc", "handler", "if", "loop", "top-late", "funcif", "handlerloop", "procwhile"}
 
 // zzC05Program builds the skeleton with breakage b inserted at slot.
 func zzC05Program(b *zzBreakage, slot string) string {
@@ -91,6 +105,9 @@ func zzC05Program(b *zzBreakage, slot string) string {
 				ind := "    "
 				if strings.HasPrefix(name, "top") {
 					ind = ""
+				}
+				if name == "funcif" || name == "handlerloop" || name == "procwhile" {
+					ind = "        "
 				}
 				for _, l := range b.lines {
 					out += ind + l + "\n"
